@@ -162,6 +162,10 @@ pub fn check_stream(c: &mut Case, cfg: &DCfg, input: &[u8], out: &[u8], dict: Op
 pub fn run(ctx: &mut Ctx) {
     let fams = dfam::build(ctx.quick());
     let env = Env::new();
+    // copies run with an allocator that pre-fills every block: what a duplicate forgot to carry over is then a known,
+    // wrong value in every repetition (not whatever malloc happened to return)
+    let mut env_fill = Env::new();
+    env_fill.guarded_alloc = Some(0xC3);
     let sel = dfam::Sel { tiny: true, shapes: true, big: true, sweep: true, shape_cfg_stride: if ctx.quick() { 3 } else { 1 } };
     dfam::for_each(ctx, &fams, sel, |ctx, it| {
         // the decoded level/strategy in force when the header was written is the initial one
@@ -180,7 +184,7 @@ pub fn run(ctx: &mut Ctx) {
                 if it.sched.tail_room != AMPLE && it.sched.tail_room >= 2 && t.calls.len() > 3 && (it.sched_idx + it.inp.data.len()) % 3 == 0 {
                     for k in [1usize, 2, 3] {
                         c.exec();
-                        let tk = run_deflate::<Rs>(&it.cfg, &it.inp.data, it.sched, &env, &DExtra { copy_after_call: k, ..Default::default() }, None)?;
+                        let tk = run_deflate::<Rs>(&it.cfg, &it.inp.data, it.sched, &env_fill, &DExtra { copy_after_call: k, ..Default::default() }, None)?;
                         check_stream(c, &it.cfg, &it.inp.data, &tk.out, None, None).map_err(|e| format!("continued on a deflateCopy taken after call {k}: {e}"))?;
                     }
                 }
